@@ -110,10 +110,21 @@ func H_C07(entry, cenc, renc, kind, provider int) {
 	c1 := []byte(nondetString("chunk1", 3))
 	c2 := []byte(nondetString("chunk2", 3))
 	twoChunks := nondetBool("two")
+	late := 0
+	if kind == 0 {
+		late = []int{0, 204, 304, 500}[nondetChoice("late", 4)]
+	}
+	hijack := kind == 0 && nondetBool("hijack")
 	expected := ""
 	body := func(w http.ResponseWriter) {
 		if kind == 2 {
 			panic("boom")
+		}
+		if hijack {
+			// taking over the connection must not hand the compressor back while the response still uses it
+			if hj, ok := w.(http.Hijacker); ok {
+				hj.Hijack()
+			}
 		}
 		w.WriteHeader(200)
 		w.Write(c1)
@@ -124,6 +135,10 @@ func H_C07(entry, cenc, renc, kind, provider int) {
 		if twoChunks {
 			w.Write(c2)
 			expected += string(c2)
+		}
+		if late != 0 {
+			// a superfluous status after the body: too late to change anything, the stream must still be completed
+			w.WriteHeader(late)
 		}
 	}
 	ws := new(WebService)
@@ -142,12 +157,21 @@ func H_C07(entry, cenc, renc, kind, provider int) {
 	ws.Route(warm)
 	c.Add(ws)
 	plain := http.HandlerFunc(func(w http.ResponseWriter, r *http.Request) { body(w) })
+	// the switch may be thrown after the handler was registered: what counts is its position when the request arrives
+	flip := (entry == 2 || entry == 3) && nondetBool("flip")
+	if flip {
+		c.EnableContentEncoding(cenc != 1)
+	}
 	if entry == 2 {
 		c.Handle("/plain", plain)
 	}
 	if entry == 3 {
 		c.Filter(func(req *Request, resp *Response, chain *FilterChain) { chain.ProcessFilter(req, resp) })
 		c.HandleWithFilter("/plain", plain)
+	}
+	if flip {
+		c.EnableContentEncoding(cenc == 1)
+		verifCover("flipped")
 	}
 	ae := nondetString("ae", 12)
 	preset := nondetBool("preset")
